@@ -25,10 +25,10 @@ None == [nil |-> TRUE]
 -----------------------------------------------------------------------------
 (* Ids.  An id is a dotted path; the universe is fixed and small.  IdSeq is *)
 (* the universe in the byte order Rust sorts strings by.                    *)
-IdSeq == << "", "a", "b", "c", "d", "d.a", "d.b", "d.e", "d.e.a" >>
+IdSeq == << "", "a", "b", "c", "c/a", "d", "d.a", "d.b", "d.e", "d.e.a" >>
 AllIds == {IdSeq[i] : i \in 1..Len(IdSeq)}
 Parent == [i \in AllIds |->
-             CASE i \in {"", "a", "b", "c", "d"} -> ""
+             CASE i \in {"", "a", "b", "c", "c/a", "d"} -> ""    \* "c/a" is a plain id that merely contains a slash
                [] i \in {"d.a", "d.b", "d.e"} -> "d"
                [] i = "d.e.a" -> "d.e"]
 Exts == {"x", "y", "z", ""}
